@@ -103,7 +103,11 @@ map_t map;
 /* reference association + the hash function */
 uint64_t key[N]; uint32_t hs[N]; int32_t val[N]; int in[N], known[N];
 static int idx(const chain *p) { int r = -1; for(int k = 0; k < N; k++) if(p == EP[k]) r = k; if(p && r < 0) r = N; return r; }
+#if defined(FULLHASH) || defined(SCRIPT)
 static uint32_t bucket_of(uint32_t h, uint64_t cap) { return cap == 20 ? h % 20u : h % 10u; }
+#else   /* h < 20: no divider needed in the harness */
+static uint32_t bucket_of(uint32_t h, uint64_t cap) { return cap == 20 ? h : (h >= 10u ? h - 10u : h); }
+#endif
 #ifdef VP_NATIVE
 static int script_on; static uint32_t HT[16];
 #endif
@@ -111,9 +115,10 @@ uint32_t vp_hash(uint64_t k) {
 #ifdef VP_NATIVE
 	if(script_on) return HT[k % 16];
 #endif
-	for(int i = 0; i < N; i++) if(known[i] && k == key[i]) return hs[i];
-	VP_ASSERT(0, "hash functor called with a key that is neither stored in the map nor the argument of the operation");
-	return 0;
+	uint32_t r = 0; int f = 0;
+	for(int i = 0; i < N; i++) { int e = known[i] && k == key[i]; r = e ? hs[i] : r; f |= e; }
+	VP_ASSERT(f, "hash functor called with a key that is neither stored in the map nor the argument of the operation");
+	return r;
 }
 
 /* allocator stub: pre-declared blocks chosen by request size (one chain node, one table per operation), protocol recorded */
@@ -203,36 +208,48 @@ static int valid(const struct view *v, const int *mem, int m) {
 	else if(v->which == 2) { if(v->cap != 10) return 0; }
 	else if(v->which == 3) { if(v->cap != 20) return 0; }
 	else return 0;
-	int cnt[N], pred[N], rk[N];
-	for(int i = 0; i < N; i++) { cnt[i] = 0; pred[i] = -2; }
+	int cnt[N], pred[N], rk[N], ok = 1; uint32_t hb[N];
+	for(int i = 0; i < N; i++) { cnt[i] = 0; pred[i] = -2; hb[i] = bucket_of(hs[i], v->cap); }
 	for(int b = 0; b < 20; b++) if((uint64_t)b < v->cap) {
 		int h = v->head[b];
-		if(h >= N) return 0;
-		for(int i = 0; i < N; i++) if(h == i) { if(!mem[i] || bucket_of(hs[i], v->cap) != (uint32_t)b) return 0; cnt[i]++; pred[i] = -1; }
+		ok &= h < N;
+		for(int i = 0; i < N; i++) if(h == i) { ok &= mem[i] && hb[i] == (uint32_t)b; cnt[i]++; pred[i] = -1; }
 	}
 	for(int j = 0; j < N; j++) if(mem[j]) {
 		int x = v->nx[j];
-		if(x >= N) return 0;
-		for(int i = 0; i < N; i++) if(x == i) { if(!mem[i] || bucket_of(hs[i], v->cap) != bucket_of(hs[j], v->cap)) return 0; cnt[i]++; pred[i] = j; }
+		ok &= x < N;
+		for(int i = 0; i < N; i++) if(x == i) { ok &= mem[i] && hb[i] == hb[j]; cnt[i]++; pred[i] = j; }
 	}
-	for(int i = 0; i < N; i++) { if(mem[i] && cnt[i] != 1) return 0; rk[i] = pred[i] == -1 ? 0 : N; }
+	for(int i = 0; i < N; i++) { if(mem[i]) ok &= cnt[i] == 1; rk[i] = pred[i] == -1 ? 0 : N; }
 	for(int round = 0; round < N; round++)
 		for(int i = 0; i < N; i++) if(mem[i] && pred[i] >= 0) { int r = N; for(int j = 0; j < N; j++) if(pred[i] == j) r = rk[j] + 1; rk[i] = r > N ? N : r; }
-	for(int i = 0; i < N; i++) if(mem[i] && rk[i] >= N) return 0;
-	return 1;
+	for(int i = 0; i < N; i++) if(mem[i]) ok &= rk[i] < N;
+	return ok;
 }
 
 /* ---- solver-chosen pre-state */
 uint64_t pk; int pj;              /* argument key; index of the entry that holds it, -1 = absent */
+/* -DPROF="{b0,b1,...}": the bucket (hash % CAP) of every entry is fixed by the query (non-decreasing list of M numbers < CAP), which makes the
+ * chain structure concrete; the remaining bit of a hash value < 20 (h = b or b + 10 when CAP == 10), keys, values and the argument stay symbolic */
+#ifdef PROF
+static const uint8_t prof[M + 1] = PROF;
+#endif
+uint32_t bk[N];                   /* bucket of entry i in the pre-state */
 static void havoc(int allow_present, int allow_absent) {
 #if VT
 	for(int i = 0; i < N; i++) vp_region(EP[i], sizeof(chain));
 #endif
 	for(int i = 0; i < M; i++) {
 		VP_INPUT(key[i]); VP_INPUT(hs[i]); VP_INPUT(val[i]); in[i] = 1; known[i] = 1;
-		VP_ASSUME(hs[i] <= HLIM);
 		for(int j = 0; j < i; j++) VP_ASSUME(key[j] != key[i]);
-		if(i > 0) VP_ASSUME(bucket_of(hs[i - 1], CAP) <= bucket_of(hs[i], CAP));
+#ifdef PROF
+		hs[i] = prof[i] + ((CAP == 10 && (hs[i] & 1)) ? 10u : 0u); bk[i] = prof[i];
+		VP_ASSUME(prof[i] < CAP && (i == 0 || prof[i - 1] <= prof[i]));
+#else
+		VP_ASSUME(hs[i] <= HLIM);
+		bk[i] = bucket_of(hs[i], CAP);
+		if(i > 0) VP_ASSUME(bk[i - 1] <= bk[i]);
+#endif
 	}
 	in[SP] = 0; known[SP] = 0;
 	VP_INPUT(pj); VP_INPUT(key[SP]); VP_INPUT(hs[SP]); VP_INPUT(val[SP]);
@@ -241,10 +258,10 @@ static void havoc(int allow_present, int allow_absent) {
 	else { VP_ASSUME(allow_present); pk = 0; for(int i = 0; i < M; i++) if(pj == i) pk = key[i]; }
 	/* materialise */
 	poison_tab(TA, CAP ? CAP : 1); poison_tab(NT10, 10); poison_tab(NT20, 20);
-	for(int b = 0; b < CAP; b++) { chain *h = 0; for(int i = M - 1; i >= 0; i--) if(bucket_of(hs[i], CAP) == (uint32_t)b) h = EP[i]; TA[b] = h; }
+	for(int b = 0; b < CAP; b++) { chain *h = 0; for(int i = M - 1; i >= 0; i--) if(bk[i] == (uint32_t)b) h = EP[i]; TA[b] = h; }
 	for(int i = 0; i < M; i++) {
 		KEY(EP[i]) = key[i]; VALI(EP[i]) = (uint32_t)val[i];
-		NEXT(EP[i]) = (i + 1 < M && bucket_of(hs[i + 1], CAP) == bucket_of(hs[i], CAP)) ? EP[i + 1] : 0;
+		NEXT(EP[i]) = (i + 1 < M && bk[i + 1] == bk[i]) ? EP[i + 1] : 0;
 #if VT
 		STATE(EP[i]) = VP_ALIVE; vp_live++;
 #endif
@@ -280,6 +297,11 @@ static void post(const int *mem, int m, int new_nodes, int freed_node) {
 }
 static void same_members(int *mem) { for(int i = 0; i < N; i++) mem[i] = in[i]; }
 
+#if M > 0
+#define WITNESS_PRESENT(msg) VP_WITNESS(0, msg)
+#else
+#define WITNESS_PRESENT(msg) ((void)0)
+#endif
 /* OP: 0 constructor (base case)   1 insert(const&) absent key   2 insert(&&) absent key   3 operator[]   4 get   5 find   6 find const
  *     7 remove   8 begin/++/end iteration   9 const_iterator ++ from find(key)   10 destructor */
 void harness(void) {
@@ -310,14 +332,14 @@ void harness(void) {
 	} else {
 		post(mem, M, 0, -1);
 		for(int i = 0; i < M; i++) if(pj == i) VP_ASSERT(r == VALP(EP[i]), "operator[] of a present key must return the stored value");
-		VP_WITNESS(M == 0, "operator[] present key reached");
+		WITNESS_PRESENT("operator[] present key reached");
 	}
 #elif OP == 4
 	havoc(1, 1);
 	void *r = (void *)A(get)(&map, pk);
 	same_members(mem); post(mem, M, 0, -1);
 	if(pj < 0) { VP_ASSERT(r == 0, "get() of an absent key must return null"); VP_WITNESS(0, "get absent key reached"); }
-	else { for(int i = 0; i < M; i++) if(pj == i) VP_ASSERT(r == VALP(EP[i]), "get() of a present key must return the stored value"); VP_WITNESS(M == 0, "get present key reached"); }
+	else { for(int i = 0; i < M; i++) if(pj == i) VP_ASSERT(r == VALP(EP[i]), "get() of a present key must return the stored value"); WITNESS_PRESENT("get present key reached"); }
 #elif OP == 5
 	havoc(1, 1);
 	iter_t it, en; A(find)(&map, pk, &it); A(end)(&map, &en);
@@ -330,7 +352,7 @@ void harness(void) {
 		VP_ASSERT(A(it_key)(&it) == pk, "find(): key of the located entry");
 		void *r = (void *)A(it_val)(&it);
 		for(int i = 0; i < M; i++) if(pj == i) VP_ASSERT(r == VALP(EP[i]), "find() of a present key must locate the stored value");
-		VP_WITNESS(M == 0, "find present key reached");
+		WITNESS_PRESENT("find present key reached");
 	}
 #elif OP == 6
 	havoc(1, 1);
@@ -344,7 +366,7 @@ void harness(void) {
 		VP_ASSERT(A(cit_key)(&it) == pk, "find() const: key of the located entry");
 		void *r = (void *)A(cit_val)(&it);
 		for(int i = 0; i < M; i++) if(pj == i) VP_ASSERT(r == VALP(EP[i]), "find() const of a present key must locate the stored value");
-		VP_WITNESS(M == 0, "const find present key reached");
+		WITNESS_PRESENT("const find present key reached");
 	}
 #elif OP == 7
 	havoc(1, 1);
@@ -359,7 +381,7 @@ void harness(void) {
 		for(int i = 0; i < M; i++) if(pj == i) { hs[SP] = hs[i]; known[i] = 0; }
 		post(mem, M - 1, 0, pj);
 		VP_ASSERT(A(get)(&map, pk) == 0, "the key is still found after remove()");
-		VP_WITNESS(M == 0, "remove present key reached");
+		WITNESS_PRESENT("remove present key reached");
 	}
 #elif OP == 8
 	havoc(1, 1);
